@@ -116,6 +116,7 @@ func cmdRun(args []string) int {
 	maxVisit := fs.Int("max-visit", 0, "")
 	maxConc := fs.Int("max-conc", 0, "")
 	maxDepth := fs.Int("max-depth", 0, "")
+	maxSteps := fs.Int("max-steps", 0, "")
 	preempt := fs.Int("preempt", -1, "")
 	timeout := fs.Int("timeout-ms", 0, "")
 	solver := fs.String("solver", "z3-new -in", "")
@@ -154,6 +155,9 @@ func cmdRun(args []string) int {
 	}
 	if *maxDepth > 0 {
 		opt.MaxDepth = *maxDepth
+	}
+	if *maxSteps > 0 {
+		opt.MaxSteps = *maxSteps
 	}
 	if *timeout > 0 {
 		opt.TimeoutMs = *timeout
